@@ -26,6 +26,14 @@ func main() {
 		usage()
 	}
 	switch os.Args[1] {
+	case "gen-names":
+		// maintenance of the checker itself: record the variable names of the tree the rules are written against
+		n, err := core.GenBaselineNames(core.RepoRoot(), "/verif/checker/core/baseline_names.json")
+		if err != nil {
+			fmt.Fprintln(os.Stderr, err)
+			os.Exit(2)
+		}
+		fmt.Println("functions recorded:", n)
 	case "list":
 		ids := make([]string, 0)
 		for id := range props.Registry {
